@@ -454,6 +454,146 @@ func rulesRepl(c *Ctx) {
 
 	c.ruleG2()
 	c.ruleL2(fns)
+	c.ruleQ3Q4(fns)
+}
+
+// Q3 — an empty fetch is a failed fetch. DF7: the dependency's fetcher has no error result
+// (entry.FetchParallel returns only the entries), so a cancelled request or an unavailable
+// block shows up as a missing entry, never as an error. The fetch step must therefore test
+// the fetched log's length and fail on zero before recording success.
+// Q4 — the replicator's fetch sets no Timeout: under DF7 a timeout silently truncates the
+// ancestry of a head that is then recorded as fetched (and, once in the log, never requested again).
+func (c *Ctx) ruleQ3Q4(fns []*ssa.Function) {
+	df7 := "true (assumed)"
+	if obj := c.lookupObj(logMod + "/entry.FetchParallel"); obj != nil {
+		if sig, ok := obj.Type().(*types.Signature); ok {
+			hasErr := false
+			for i := 0; i < sig.Results().Len(); i++ {
+				if isErrorType(sig.Results().At(i).Type()) {
+					hasErr = true
+				}
+			}
+			if hasErr {
+				df7 = "false: FetchParallel returns an error"
+			} else {
+				df7 = "true: entry.FetchParallel" + strings.TrimPrefix(sig.String(), "func") + " has no error result — a failed or cancelled fetch is a shorter result"
+			}
+		}
+	}
+	c.DepFacts["DF7"] = df7
+	n := 0
+	for _, f := range fns {
+		eachCall(f, func(call ssa.CallInstruction) {
+			if calleeFull(call) != logMod+".NewFromEntryHash" || call.Value() == nil {
+				return
+			}
+			n++
+			fk := fnKey(f)
+			if strings.HasPrefix(df7, "false") {
+				c.ok("Q3", fk+"→fetch#empty-is-failure", call.Pos(), "not needed: the fetcher reports errors (DF7 false)")
+				c.ok("Q4", fk+"→fetch#no-timeout", call.Pos(), "not needed: the fetcher reports errors (DF7 false)")
+				return
+			}
+			start, _, _ := okStart(call)
+			d := derived([]ssa.Value{call.Value()}, flowOpts{throughCalls: true})
+			// tests "length of the fetched log == 0" and the edge taken when it is empty
+			var tests []*ssa.If
+			emptyEdge := map[*ssa.If]int{}
+			eachInstr(f, func(in ssa.Instruction) {
+				bo, ok := in.(*ssa.BinOp)
+				if !ok {
+					return
+				}
+				var lenSide, other ssa.Value
+				for _, pr := range [][2]ssa.Value{{bo.X, bo.Y}, {bo.Y, bo.X}} {
+					if cl, ok := pr[0].(*ssa.Call); ok && d[cl] {
+						isLen := methodName(cl) == "Len"
+						if b, ok := cl.Call.Value.(*ssa.Builtin); ok && b.Name() == "len" {
+							isLen = true
+						}
+						if isLen {
+							lenSide, other = pr[0], pr[1]
+						}
+					}
+				}
+				if lenSide == nil {
+					return
+				}
+				z, ok := constInt(other)
+				if !ok {
+					return
+				}
+				edge := -1
+				lenFirst := bo.X == lenSide
+				switch {
+				case bo.Op == token.EQL && z == 0:
+					edge = 0
+				case bo.Op == token.NEQ && z == 0:
+					edge = 1
+				case lenFirst && bo.Op == token.GTR && z == 0, lenFirst && bo.Op == token.GEQ && z == 1:
+					edge = 1
+				case lenFirst && bo.Op == token.LSS && z == 1, lenFirst && bo.Op == token.LEQ && z == 0:
+					edge = 0
+				case !lenFirst && bo.Op == token.LSS && z == 0, !lenFirst && bo.Op == token.LEQ && z == 1:
+					edge = 1
+				}
+				if edge < 0 {
+					return
+				}
+				for _, r := range *bo.Referrers() {
+					if iff, ok := r.(*ssa.If); ok {
+						tests = append(tests, iff)
+						emptyEdge[iff] = edge
+					}
+				}
+			})
+			cons := fk + "→fetch#empty-is-failure"
+			if len(tests) == 0 {
+				c.bad("Q3", cons, call.Pos(), "the fetch step records success without looking at what was fetched. The fetcher has no error result (DF7): a request cancelled in the middle of a fetch, or an unavailable block, yields an EMPTY log and a nil error, the hash is then marked fetched and every later request for the same head is skipped")
+			} else {
+				// following the empty edge, a non-failing return must be unreachable; and every success return passes a test
+				viol := false
+				for _, iff := range tests {
+					s := iff.Block().Succs[emptyEdge[iff]]
+					if hit, tr := findPath(f, atBlock(s), nil, successReturn, nil); hit != nil && branchCovers(s, hit.Block()) {
+						viol = true
+						c.bad("Q3", cons, hit.Pos(), "the branch taken when nothing was fetched still returns success", c.trailStr(tr)...)
+					}
+				}
+				isTest := func(in ssa.Instruction) bool {
+					for _, iff := range tests {
+						if in == ssa.Instruction(iff) {
+							return true
+						}
+					}
+					return false
+				}
+				if hit, tr := findPath(f, start, isTest, successReturn, nil); hit != nil {
+					viol = true
+					c.bad("Q3", cons, hit.Pos(), "a successful return of the fetch step skips the emptiness test of the fetched log", c.trailStr(tr)...)
+				}
+				if !viol {
+					c.ok("Q3", cons, call.Pos(), "an empty fetch result leaves the fetch step with an error, so the hash is not recorded as fetched")
+				}
+			}
+			// Q4
+			cons = fk + "→fetch#no-timeout"
+			var fo ssa.Value
+			for _, a := range call.Common().Args {
+				if p, ok := a.Type().(*types.Pointer); ok && strings.HasSuffix(typeStr(p.Elem()), "FetchOptions") {
+					fo = a
+				}
+			}
+			if v, ok := structLitFields(fo)["Timeout"]; ok {
+				if z, isK := constInt(v); !isK || z != 0 {
+					c.bad("Q4", cons, call.Pos(), "the replicator bounds its fetches with a Timeout. The fetcher has no error result (DF7): when the time is up the ancestry fetched so far is returned as if complete, the hash is marked fetched, its links are never queued, and once the head is in the log a re-announcement is ignored — entries that were unreachable for longer than the timeout are never replicated, even after every link is healed")
+					return
+				}
+			}
+			c.ok("Q4", cons, call.Pos(), "replicator fetches are not time-bounded (they end when the blocks arrive or the request is cancelled)")
+		})
+	}
+	c.floor("Q3", "replicator fetch steps", n, 1)
 }
 
 // G2: progress consumers drain until close.
